@@ -19,7 +19,7 @@ echo "== apply"
 if ! git -C "$wt" apply "$src/patch.diff"; then
   git -C "$wt" apply -3 "$src/patch.diff" || { echo "RESULT apply-failed"; exit 3; }
 fi
-git -C "$wt" diff > "/tmp/sc/$name.rebased.diff"
+git -C "$wt" diff HEAD > "/tmp/sc/$name.rebased.diff"
 echo "== build + ctest"
 ( cd "$wt" && cmake -G Ninja -B _build -DCMAKE_BUILD_TYPE=RelWithDebInfo >/dev/null && cmake --build _build 2>&1 | tail -2 && ctest --test-dir _build -j6 --timeout 900 2>&1 | tail -3 ) | tee "/tmp/sc/$name.ctest"
 pass=$(grep -c "100% tests passed, 0 tests failed out of 1111" "/tmp/sc/$name.ctest")
